@@ -65,3 +65,36 @@ Fixpoint mem_run (st : mstate) (ops : list op) : option (list out) :=
   end.
 
 Definition mem_outputs (ops : list op) : option (list out) := mem_run mem_empty ops.
+
+(* ---- hypotheses of the theorems, as executable predicates on the operations ---- *)
+Definition LIM : N := 2147483648.           (* 2^31 *)
+(* all sequence numbers and control values below 2^31 *)
+Definition op_bounded (o : op) : bool :=
+  match o with
+  | OPut seq _ => seq <? LIM
+  | OGet seq => seq <? LIM
+  | OCtlPut s t => (s <? LIM) && (t <? LIM)
+  | ONearest req last => (req <? LIM) && (last <? LIM)
+  | ORange from to abort => (from <? LIM) && (to <? LIM)
+  | _ => true
+  end.
+
+(* searches and range retrievals start at a sequence number >= 1 *)
+Definition op_zero_free (o : op) : bool :=
+  match o with
+  | ONearest req _ => 1 <=? req
+  | ORange from _ _ => 1 <=? from
+  | _ => true
+  end.
+Definition zero_free (ops : list op) : bool := forallb op_zero_free ops.
+
+(* the memory persister's control record is written at most once and never read back
+   ([present]: a control record has been written) *)
+Fixpoint mem_ctl_ok_from (present : bool) (ops : list op) : bool :=
+  match ops with
+  | [] => true
+  | OCtlPut _ _ :: r => negb present && mem_ctl_ok_from true r
+  | OCtlGet :: r => negb present && mem_ctl_ok_from present r
+  | _ :: r => mem_ctl_ok_from present r
+  end.
+Definition mem_ctl_ok (ops : list op) : bool := mem_ctl_ok_from false ops.
